@@ -128,6 +128,16 @@ def run(prop, tier):
         single = common.run_jobs("fault_worker.py", jobs, wd, timeout=1800)
         traces = list(base) + list(single)
         common.tick("single faults: %d runs" % len(single))
+        # 1b. the same crash points with a REAL death of the process: the calls up to the crash run in a process of their own that
+        # ends by os._exit at the operation (no finally / except / __exit__ of the library runs, nothing it still buffers reaches
+        # the disk), the follow-up calls in a new process on the same directory
+        kjobs = [dict(j, cfg=dict(j["cfg"], realkill=True)) for j in jobs if j["faults"][0]["variant"].startswith("crash")]
+        if quick:
+            kjobs = kjobs[common.seed() % 2::2]
+        killed = common.run_jobs("fault_worker.py", kjobs, wd, timeout=1800)
+        traces += list(killed)
+        rep.cov["real_kill_runs"] = len(killed)
+        common.tick("real kills: %d runs" % len(killed))
         # 2. double faults: a second fault in the first follow-up call (sampled in quick, exhaustive in thorough)
         jobs2 = []
         for j, t in zip(jobs, single):
@@ -193,6 +203,8 @@ def run(prop, tier):
             rep.violation(facts, {"job": t["job"], "cfg": t["cfg"], "events": t["ev"], "failed_clauses": sorted(rj["why"])})
         rep.assumptions += [
             "a crash is simulated in-process by a BaseException raised at the operation, after which all in-memory state "
-            "is dropped (new backend objects, mutex table, call stack); durability/reordering below the filesystem API is not modelled",
+            "is dropped (new backend objects, mutex table, call stack); the crash points are explored a second time with a real "
+            "death of the process (os._exit in a forked child at the operation; follow-up calls in a new process); "
+            "durability/reordering below the filesystem API is not modelled",
         ]
     return rep.finish()
